@@ -86,6 +86,9 @@ def generate(seed, mode="c15", opts=None):
     via = ch.pick(["default", "name", "module", "direct"], "via")
     if via == "default" and len(reg) > 1:
         ops.append(["set_default", target, ch.pick(["module", "name"], "sd")])
+    if via in ("name", "module") and len(reg) > 1 and ch.chance(1, 2):
+        # another PDK is the explicit default: a target given by name or module still wins
+        ops.append(["set_default", ch.pick([p_ for p_ in reg if p_ != target], "otherdef"), ch.pick(["module", "name"], "sd2")])
     late = [p_ for p_ in PDKS if p_ not in reg]
     if late and ch.chance(1, 2):
         # a further PDK is registered only now (a late import), after the default was chosen
